@@ -521,6 +521,19 @@ func (s *SimTracer) StepOne(key string) {
 	s.mu.Unlock()
 }
 
+// WorkerGoid returns the goroutine id of the collector worker wid (0 if it has
+// not been seen yet).
+func (s *SimTracer) WorkerGoid(wid int64) int64 {
+	s.mu.Lock()
+	defer s.mu.Unlock()
+	for g, w := range s.goidWorker {
+		if w == wid {
+			return g
+		}
+	}
+	return 0
+}
+
 func (s *SimTracer) Parked(key string) bool {
 	s.mu.Lock()
 	defer s.mu.Unlock()
